@@ -244,3 +244,65 @@ def escaping(ctx):
         ctx.inconclusive.append(f"only {sites} `.initial` print sites found")
     ctx.bounds.update({"sites": sites, "operands": "every truthiness"})
     ctx.sample({"sites": sites})
+
+
+# ---------------------------------------------------------------------------------------
+FULL = [
+    ("integer :: v", "integer"), ("INTEGER :: V", "integer"), ("integer v", "integer"),
+    ("real(8) :: v", "real(kind=8)"), ("real*8 v", "real(kind=8)"), ("real(kind=8) :: v", "real(kind=8)"), ("REAL ( KIND = 8 ) :: V", "real(kind=8)"),
+    ("real(dp), intent(in), optional :: v", "real(kind=dp)"),
+    ("character(len=10) :: v", "character(len=10)"), ("character(10) :: v", "character(len=10)"), ("character*10 v", "character(len=10)"),
+    ("character(len=*), parameter :: v = 'x'", "character(len=*), parameter"), ("character(kind=ck, len=5) :: v", "character(kind=ck, len=5)"),
+    ("type(t) :: v", "type(t)"), ("TYPE(T) :: V", "type(T)"), ("class(t), pointer :: v", "class(t), pointer"),
+    ("real, dimension(3), allocatable :: v", "real, dimension(3), allocatable"), ("real :: v(3)", "real, (3)"),
+    ("double precision :: v", "double precision"), ("doubleprecision v", "doubleprecision"),
+    ("logical, save :: v = .true.", "logical, save"), ("complex(kind=8), target :: v", "complex(kind=8), target"),
+    ("procedure(iface), pointer :: v", "procedure(iface), pointer"),
+]
+
+
+def replay_full(w):
+    f = parserh.parse_concrete(["module m", w["decl"], "end module m"])
+    v = f.modules[0].variables[0]
+    got = v.full_declaration
+    return got != w["expected"], {"declaration": w["decl"], "ford_full_declaration": got, "expected": w["expected"]}
+
+
+@obligation("C18", "O2.full-declaration", engine="SX(CV)", timeout=900)
+def full_decl(ctx):
+    """the text shown for a variable's type and attributes (full_declaration) says what the declaration says, the same for every
+    equivalent spelling (kind/len spellings, letter case of keywords, blanks)"""
+    import ford.sourceform as sf
+
+    ctx.encode_fn(sf.parse_type)
+    ctx.encode_fn(sf.line_to_variables)
+    ctx.encode_text("FortranVariable.full_type/full_declaration", __import__("inspect").getsource(sf.FortranVariable), "python-source")
+    ctx.bounds.update({"declarations": len(FULL)})
+
+    def h(E):
+        d = CV.choice(E, "decl", FULL)
+        E.e.snapshot = lambda m: {"decl": choice.value_in_model(m, d)[0], "expected": choice.value_in_model(m, d)[1]}
+        try:
+            n, got = parserh.parse(["module m", d[0], "end module m"],
+                                   post=lambda f: (len(f.modules[0].variables), f.modules[0].variables[0].full_declaration if f.modules[0].variables else None))
+        except (ValueError, IndexError, KeyError, AttributeError, TypeError) as e:
+            E.reachable("raised")
+            E.require(False, "parser fails on a valid declaration: " + type(e).__name__)
+            return
+        E.reachable("parsed")
+        E.require(choice.apply(lambda k: k == 1, n), "variable missing")
+        E.require(choice.apply(lambda g, w_: g == w_, got, d[1]), "displayed declaration differs from the source declaration")
+
+    E = sym.Engine(ctx, max_paths=5000, incremental=True)
+    found = E.explore(h)
+    seen = set()
+    for (label, m, pc), snap in zip(found, E.snapshots):
+        if label in seen:
+            continue
+        seen.add(label)
+        ctx.report(label, snap, replay_full)
+    if E.reached.get("parsed"):
+        ctx.twins += 1
+    else:
+        ctx.inconclusive.append("vacuity: parser never completed")
+    ctx.sample({"declarations": [d[0] for d in FULL[:6]]})
